@@ -45,6 +45,7 @@ def cases(tier):
 
 def enumerate_cases(tier):
     yield from c01.css_name_rows(["glyf", "glyf_colr_0", "cff_colr_0"])
+    yield from c01.origin_rows(["glyf", "glyf_colr_0"])
 
 
 shrink = c01.shrink
